@@ -2,6 +2,7 @@
 Line-protocol driver for the C12 model (merge of partial query results above the leaf).
 
   new <id> <n>                         context `id` := MetricContext whose plan has n targets
+  newp <id> <k1> <k2> ..              context `id` := RootMetricContext.MakePlan over physical plans with k1, k2, .. targets
   resp <id> nf | er | bad              deliver a not-found / other-error / undecodable response
   resp <id> ok <cap> <payload>         deliver a data response
   complete <id> ok|er                  baseTaskContext.Complete(nil | err) (the search pipeline's completion callback)
@@ -37,6 +38,7 @@ import LinVerif.Model.RowRoute
 import LinVerif.Model.TaskMgr
 import LinVerif.Model.C12LeafFilter
 import LinVerif.Model.C12FieldWire
+import LinVerif.Model.C12Plans
 import LinVerif.Generated.C12
 
 namespace LinVerif.Driver.C12
@@ -554,6 +556,13 @@ def step (st : DSt) (ws : List String) : DSt × String :=
   | ["new", id, n] =>
     match id.toNat?, n.toNat? with
     | some id, some n => let c := Ctx.new n; (putCtx st id c, showState c)
+    | _, _ => (st, "bad-op")
+  | "newp" :: id :: ks =>
+    match id.toNat?, ks.mapM String.toNat? with
+    | some id, some ks =>
+      if ks.isEmpty then (st, "bad-op") else
+      let pc := if Generated.C12.addRequestsPerTarget then PlanCount.perTarget else PlanCount.assignTolerance
+      let c := Ctx.newPlans pc ks; (putCtx st id c, showState c)
     | _, _ => (st, "bad-op")
   | "resp" :: id :: kind :: rest =>
     match id.toNat? with
